@@ -385,9 +385,9 @@ func ConstGroupAtoms() []Atom {
 	explicit2 := []spec{
 		{"%[1]s, %[1]sx = iota, iota * 2.5", "uint+ufloat"}, {"%[1]s, %[1]sx = uint8(iota), \"s\"", "tint+ustring"}, {"%[1]s, %[1]sx float64 = iota, 7", "tfloat+tfloat"},
 		{"%[1]s, %[1]sx = 2.5, iota", "ufloat+uint"}, {"%[1]s, %[1]sx = iota + 1, 1 << iota", "uint+uint"}, {"%[1]s, %[1]sx = MyInt(iota), float32(iota)", "tint+tfloat"},
-		{"%[1]s, %[1]sx = 'a', iota", "urune+uint"}, {"%[1]s, %[1]sx = iota, iota > 0", "uint+ubool"},
+		{"%[1]s, %[1]sx = 'a', iota", "urune+uint"}, {"%[1]s, %[1]sx = iota, 2i", "uint+ucomplex"},
 	}
-	// (operators over typed constants and rune + int are decided - and fail - in the operator catalogue: not used here)
+	// (operators over typed constants, rune + int and constant comparisons - emitted folded - are decided - and fail - in the operator catalogue: not used here)
 	imp2 := spec{"%[1]s, %[1]sx", "implicit2"}
 	uses2 := []string{"v := %[1]sx; _ = v", "_ = %[1]sx", "v, w := %[1]s, %[1]sx; _, _ = v, w"}
 	add2 := func(specs []spec) {
